@@ -66,6 +66,38 @@ class Elem(Ext):
     def __init__(self, mat, key):
         self.mat, self.key = mat, key
 
+    def position(self):
+        """(row, column) of the matrix this element is: a pair subscript is (row, column); a single subscript counts the elements
+        column by column (CasADi's linear indexing, also the order of ca.vec)"""
+        return position_of(self.key, self.mat.shape)
+
+
+def position_of(key, shape):
+    if isinstance(key, tuple) and len(key) == 2:
+        return tuple(key)
+    k_ = key[0] if isinstance(key, tuple) else key
+    if not isinstance(k_, int):
+        return None
+    return (k_ % shape[0], k_ // shape[0])
+
+
+class VecOf(Ext):
+    """ca.vec(M): the column-by-column vector of M's elements"""
+    type_names = ("MX",)
+
+    def __init__(self, mat):
+        self.mat = mat
+        self.shape = (mat.shape[0] * mat.shape[1], 1)
+
+    def sym_getattr(self, eng, name):
+        if name == "shape":
+            return self.shape
+        raise Unsupported("MX.%s" % name)
+
+    def sym_getitem(self, eng, key):
+        k_ = key[0] if isinstance(key, tuple) else key
+        return Elem(self.mat, k_)
+
 
 class Leaf(Ext):
     """an element of a nested-list attribute"""
@@ -107,6 +139,8 @@ class MatchStub(Ext):
 def install(eng):
     mx = VClass("MX")
     mx.attrs["sym"] = stub(lambda eng, name, *shape: SymT(name))
+    # ca.MX(x) of something that already is an MX expression is that expression
+    mx.constructor = lambda eng, c, a, k: a[0] if a and isinstance(a[0], (Mat, Elem, VecOf, Built, SymT)) else _uns("MX(...)")
     dm = VClass("DM")
 
     def flat(shape):
@@ -122,13 +156,20 @@ def install(eng):
     })
     cas = ModuleStub("casadi", {"MX": mx, "DM": dm, "vertcat": stub(lambda eng, *a: Built("vertcat", a)),
                                 "reshape": stub(lambda eng, e, *shape: Built("reshape", (e, tuple(shape)))),
-                                "substitute": stub(lambda eng, e, a, b: e)})
+                                "substitute": stub(lambda eng, e, a, b: e),
+                                "vec": stub(lambda eng, m_: VecOf(m_) if isinstance(m_, Mat) else m_),
+                                "vertsplit": stub(lambda eng, v_, *a: VList([Elem(v_.mat, k_) for k_ in range(v_.shape[0])]) if isinstance(v_, VecOf) else _uns("vertsplit")),
+                                "horzsplit": stub(lambda eng, v_, *a: _uns("horzsplit"))})
     typing = ModuleStub("typing", {})
     eng.ext_modules.update({"casadi": cas, "numpy": numpy, "re": ReStub(), "logging": ModuleStub("logging", {"getLogger": stub(lambda eng, *a: NoOp())}),
                             "itertools": itertools_module(), "sys": ModuleStub("sys", {"maxsize": 2 ** 63 - 1}),
                             "collections": CollectionsStub(), "typing": typing})
     eng.call_contracts.clear()
     eng.loop_specs.clear()
+
+
+def _uns(what):
+    raise Unsupported("casadi.%s of this operand" % what)
 
 
 def _prod(xs):
@@ -255,7 +296,7 @@ def h_expand(eng, cases=None):
             elif kinds[a] == "mx-scalar":
                 ok = got is src
             elif kinds[a] == "matrix":
-                ok = isinstance(got, Elem) and got.mat is src and tuple(got.key if isinstance(got.key, tuple) else (got.key,)) == tuple(ind)
+                ok = isinstance(got, Elem) and got.mat is src and got.position() == (tuple(ind) if len(ind) == 2 else (ind[0], 0))
             else:
                 ok = isinstance(got, Leaf) and got.path == tuple(ind)
             eng.prove("expand.attribute_element_matches_scalar_index", z3.BoolVal(bool(ok)), attribute=a, kind=kinds[a], index=list(ind))
@@ -281,12 +322,7 @@ def h_expand(eng, cases=None):
         eng.prove("expand.delay_states_renamed_element_by_element", z3.BoolVal(sorted(ds) == sorted(["d_other[1,1]"] + want) and
                                                                                  pos == list(range(pos[0], pos[0] + len(want)))))
         def element(key):
-            # which (row, column) of the delayed expression a subscript selects: a pair is (row, column); a single integer counts the
-            # elements of an MX column by column (CasADi's linear indexing)
-            if isinstance(key, tuple) and len(key) == 2:
-                return tuple(key)
-            k_ = key[0] if isinstance(key, tuple) else key
-            return (k_ % cshape[0], k_ // cshape[0]) if isinstance(k_, int) else None
+            return position_of(key, cshape)
         okd = len(items) == len(ds) and all(0 <= p < len(items) and isinstance(items[p].fields.get("expr"), Elem) and items[p].fields["expr"].mat is dexpr and
                                             element(items[p].fields["expr"].key) == tuple(ind)
                                             and items[p].fields.get("duration") == "dur" for p, ind in zip(pos, inds))
